@@ -33,6 +33,10 @@ func (p *Prog) VerifyForbids(prop string) *FuncResult {
 			p.verifyReads(fb, all, res)
 			continue
 		}
+		if len(fb.Cover) > 0 {
+			p.verifyCovers(fb, all, res)
+			continue
+		}
 		exempt := map[string]bool{}
 		for _, e := range fb.Except {
 			exempt[e] = true
@@ -331,6 +335,212 @@ func (p *Prog) verifyReads(fb *Forbid, all map[*ssa.Function]bool, res *FuncResu
 		o := &Oblig{Name: n, Base: "forbid", Kind: "forbid", Func: h.fn.String(), Hyp: "true", Goal: "false", Props: fb.Props,
 			Static: "violated", Note: fmt.Sprintf("%s (reachable from %s via %s) has a %s at %s", shortKey(h.fn.String()), strings.Join(fb.From, ", "), via[h.fn], h.what, h.pos)}
 		o.Pos = p.Fset.Position(h.fn.Pos())
+		res.Obligs = append(res.Obligs, o)
+	}
+}
+
+// fieldUses collects, over every module function reachable from root (static calls, function literals,
+// interface calls dispatched by method name and implemented interface; library code is not entered), the
+// struct fields that are read and the ones that are written (stored to, or whose address escapes).
+func (p *Prog) fieldUses(root *ssa.Function, byName map[string][]*ssa.Function) (reads, writes map[string]bool, nfun int) {
+	reads, writes = map[string]bool{}, map[string]bool{}
+	seen := map[*ssa.Function]bool{}
+	work := []*ssa.Function{root}
+	mod := strings.TrimSuffix(modulePrefix, "/")
+	inModule := func(fn *ssa.Function) bool {
+		r := fn
+		for r.Parent() != nil {
+			r = r.Parent()
+		}
+		return r.Pkg != nil && strings.HasPrefix(r.Pkg.Pkg.Path(), mod)
+	}
+	for len(work) > 0 {
+		fn := work[len(work)-1]
+		work = work[:len(work)-1]
+		if seen[fn] || fn.Blocks == nil || !inModule(fn) {
+			seen[fn] = true
+			continue
+		}
+		seen[fn] = true
+		nfun++
+		work = append(work, fn.AnonFuncs...)
+		for _, b := range fn.Blocks {
+			for _, in := range b.Instrs {
+				switch i := in.(type) {
+				case *ssa.FieldAddr:
+					pt, ok := i.X.Type().Underlying().(*types.Pointer)
+					if !ok {
+						break
+					}
+					nt, ok := pt.Elem().(*types.Named)
+					if !ok {
+						break
+					}
+					st, ok := nt.Underlying().(*types.Struct)
+					if !ok {
+						break
+					}
+					name := nt.Obj().Name() + "." + st.Field(i.Field).Name()
+					if refs := i.Referrers(); refs != nil {
+						for _, r := range *refs {
+							switch u := r.(type) {
+							case *ssa.UnOp:
+								reads[name] = true
+								// a map held in the field that is updated, or a slice that is appended to and stored
+								// back, changes what the field denotes
+								if lrefs := u.Referrers(); lrefs != nil {
+									for _, lr := range *lrefs {
+										if mu, ok := lr.(*ssa.MapUpdate); ok && mu.Map == u {
+											writes[name] = true
+										}
+										// a map / pointer held in the field is handed to a callee, which may fill it
+										if _, isCall := lr.(ssa.CallInstruction); isCall {
+											switch u.Type().Underlying().(type) {
+											case *types.Map, *types.Pointer:
+												writes[name] = true
+											}
+										}
+									}
+								}
+							case *ssa.Store:
+								if u.Addr == i {
+									writes[name] = true
+								} else {
+									reads[name] = true
+								}
+							case *ssa.DebugRef:
+							case *ssa.FieldAddr, *ssa.IndexAddr:
+								// address of a part of the field: both a read path and a write path
+								reads[name] = true
+								writes[name] = true
+							default:
+								// the address escapes (e.g. ReadElements(r, &x.f)): may be written and read
+								reads[name] = true
+								writes[name] = true
+							}
+						}
+					}
+				case *ssa.Field:
+					if nt, ok := i.X.Type().(*types.Named); ok {
+						if st, ok := nt.Underlying().(*types.Struct); ok {
+							reads[nt.Obj().Name()+"."+st.Field(i.Field).Name()] = true
+						}
+					}
+				}
+				var cc *ssa.CallCommon
+				switch i := in.(type) {
+				case *ssa.Call:
+					cc = &i.Call
+				case *ssa.Defer:
+					cc = &i.Call
+				case *ssa.Go:
+					cc = &i.Call
+				}
+				if cc == nil {
+					continue
+				}
+				if callee := cc.StaticCallee(); callee != nil {
+					work = append(work, callee)
+					continue
+				}
+				if cc.IsInvoke() {
+					it, _ := cc.Value.Type().Underlying().(*types.Interface)
+					for _, m := range byName[cc.Method.Name()] {
+						if it == nil || types.Implements(m.Signature.Recv().Type(), it) {
+							work = append(work, m)
+						}
+					}
+				}
+			}
+		}
+	}
+	return
+}
+
+// verifyCovers decides `forbid cover …`: codec coverage of struct fields.
+func (p *Prog) verifyCovers(fb *Forbid, all map[*ssa.Function]bool, res *FuncResult) {
+	byKey := map[string]*ssa.Function{}
+	byName := map[string][]*ssa.Function{}
+	for fn := range all {
+		byKey[fn.String()] = fn
+		if fn.Signature.Recv() != nil {
+			byName[fn.Name()] = append(byName[fn.Name()], fn)
+		}
+	}
+	tp := p.typesPkg(fb.PkgPath)
+	if tp == nil {
+		return
+	}
+	transient := map[string]bool{}
+	for _, t := range fb.Transient {
+		transient[t] = true
+	}
+	var typeNames []string
+	if len(fb.Cover) == 1 && fb.Cover[0] == "all" {
+		for _, n := range tp.Scope().Names() {
+			tn, ok := tp.Scope().Lookup(n).(*types.TypeName)
+			if !ok {
+				continue
+			}
+			if _, ok := tn.Type().Underlying().(*types.Struct); !ok {
+				continue
+			}
+			sf, df := byKey["(*"+fb.PkgPath+"."+n+").Serialize"], byKey["(*"+fb.PkgPath+"."+n+").Deserialize"]
+			if sf != nil && df != nil && sf.Synthetic == "" && df.Synthetic == "" {
+				// (methods promoted from an embedded struct are wrappers: the embedded type is listed itself)
+				typeNames = append(typeNames, n)
+			}
+		}
+	} else {
+		typeNames = fb.Cover
+	}
+	sort.Strings(typeNames)
+	for _, n := range typeNames {
+		tn, ok := tp.Scope().Lookup(n).(*types.TypeName)
+		ser, des := byKey["(*"+fb.PkgPath+"."+n+").Serialize"], byKey["(*"+fb.PkgPath+"."+n+").Deserialize"]
+		if !ok || ser == nil || des == nil {
+			res.Obligs = append(res.Obligs, &Oblig{Name: shortKey(fb.PkgPath) + "#cover:" + n + ":orphan", Base: "cover", Kind: "forbid", Func: fb.PkgPath, Hyp: "true", Goal: "false",
+				Props: fb.Props, Static: "violated", Note: "type " + n + " or its Serialize/Deserialize methods not found"})
+			continue
+		}
+		st := tn.Type().Underlying().(*types.Struct)
+		rd, _, n1 := p.fieldUses(ser, byName)
+		_, wr, n2 := p.fieldUses(des, byName)
+		var missing []string
+		covered := 0
+		for i := 0; i < st.NumFields(); i++ {
+			f := st.Field(i)
+			key := n + "." + f.Name()
+			if transient[key] {
+				continue
+			}
+			if f.Embedded() {
+				// an embedded struct is covered through its own fields (listed for its own type) or through a
+				// call of its own codec; here only that it is touched at all on both sides
+			}
+			okR, okW := rd[key], wr[key]
+			if okR && okW {
+				covered++
+				continue
+			}
+			side := ""
+			if !okR {
+				side += " not-read-by-Serialize"
+			}
+			if !okW {
+				side += " not-written-by-Deserialize"
+			}
+			missing = append(missing, key+side)
+		}
+		name := shortKey(fb.PkgPath) + "#cover:" + n
+		if len(missing) == 0 {
+			res.Obligs = append(res.Obligs, &Oblig{Name: name, Base: "cover", Kind: "forbid", Func: fb.PkgPath, Hyp: "true", Goal: "true", Props: fb.Props,
+				Static: "ok", Note: fmt.Sprintf("%s: %d fields, each read below Serialize (%d functions scanned) and written below Deserialize (%d functions scanned)", n, covered, n1, n2)})
+			continue
+		}
+		o := &Oblig{Name: name, Base: "cover", Kind: "forbid", Func: fb.PkgPath, Hyp: "true", Goal: "false", Props: fb.Props,
+			Static: "violated", Note: fmt.Sprintf("%s: fields outside the codec: %s", n, strings.Join(missing, "; "))}
+		o.Pos = p.Fset.Position(ser.Pos())
 		res.Obligs = append(res.Obligs, o)
 	}
 }
